@@ -770,7 +770,22 @@ func ruleNormalizeOfferCuts(c *Ctx, rule string) {
 				return isOrig(x.X) && x.Low == nil && x.High != nil && isIdx(x.High)
 			case *ssa.Parameter:
 				// the offer itself, when it has no ';'
-				return x == orig && guardedBy(r, nil, noSemi)
+				if x != orig {
+					return false
+				}
+				if guardedBy(r, nil, noSemi) {
+					return true
+				}
+				// … or on the (never taken) branch `len(strings.Split(orig, ";")) == 0`
+				noParts := factEqInt(func(v ssa.Value) bool {
+					okL, _ := allOrigins(v, oCallWhere(-1, "builtin len", func(lc *ssa.Call) bool {
+						okk, _ := allOrigins(lc.Call.Args[0], oCallWhere(-1, "strings.SplitN", func(sp *ssa.Call) bool { return isOrig(sp.Call.Args[0]) }),
+							oCallWhere(-1, "strings.Split", func(sp *ssa.Call) bool { return isOrig(sp.Call.Args[0]) }))
+						return okk
+					}))
+					return okL
+				}, 0, true)
+				return guardedBy(r, nil, noParts)
 			}
 			return false
 		})
